@@ -332,6 +332,7 @@ class PermitRun:
         self.sem_held = {}       # tid -> count
         self.model = None
         self.prim = None
+        self.task_obj = {}
         self.nontrivial = False
 
     # -- violations ---------------------------------------------------------------------------
@@ -356,6 +357,12 @@ class PermitRun:
                 self.v("stats", f"statistics().locked={st.locked} but locked()={locked}")
             ok = m.observe(lambda w: (w.used() == 1) == locked)
             what = f"locked()={locked}"
+            if len(self.holding) == 1 and locked and not m.pending:
+                # a definite holder and nobody in transit: statistics() must name that task as the owner
+                (who, htid), = self.holding.items()
+                t = self.task_obj.get(htid)
+                if t is not None and (st.owner is None or st.owner.id != id(t)):
+                    self.v("owner", f"{where}: task {htid} holds the lock but statistics().owner is {st.owner}")
             waiting = st.tasks_waiting
         elif self.base == "sem":
             val = p.value
@@ -466,6 +473,8 @@ class PermitRun:
         self.observe("after total_tokens")
 
     async def task(self, tid, segs):
+        import asyncio
+        self.task_obj[tid] = asyncio.current_task()
         try:
             for _, sid, inner in segs:
                 sc = CancelScope()
